@@ -71,6 +71,8 @@ def strategy(tier: str):
             "path_form": st.sampled_from(("absolute", "absolute", "bare", "dot", "subdir")),
             "file_name": st.sampled_from(FILE_NAMES),
             "hardlink": st.sampled_from((False, False, True)),
+            "prior_saves": st.sampled_from((0, 0, 0, 1, 3, 5)),
+            "debug_log": st.sampled_from((False, False, True)),
         }
     )
 
@@ -102,6 +104,10 @@ def enumerate_cases(tier: str):
                     for form in ("bare", "dot", "subdir"):
                         yield {"old": old, "new": new, "same": False, "second": False, "how": how, "old_layout": layout, "path_form": form}
                     yield {"old": old, "new": new, "same": False, "second": how == "save", "how": how, "old_layout": layout, "hardlink": True}
+                    yield {"old": old, "new": new, "same": False, "second": False, "how": how, "old_layout": layout, "debug_log": True}
+                    if how == "save":
+                        for n in (1, 3, 4, 9):
+                            yield {"old": old, "new": new, "same": False, "second": False, "how": how, "old_layout": layout, "prior_saves": n}
                     if how in ("save", "context"):
                         for name in FILE_NAMES[2:]:
                             yield {"old": old, "new": new, "same": False, "second": how == "save", "how": how, "old_layout": layout, "file_name": name}
@@ -222,6 +228,8 @@ def _cfg_path(path: str) -> str:
     return path
 
 
+PRIOR_SAVES = [0]  # completed saves the process performs before the one that is interrupted (set by run_case; read in the child)
+DEBUG_LOG = [False]  # the process logs at DEBUG, as under the bundled CLI (set by run_case; read in the child)
 HOW = ["save"]  # how the process under test reaches its save (set by run_case around the sweeps; read in the forked child)
 
 
@@ -255,6 +263,9 @@ async def _flow(gateway: Gateway, new: dict, how: str) -> None:
     if how == "load-save":
         await gateway.persistence.load()
     env.install_registry(gateway.nodes, new)
+    if how == "save":
+        for _ in range(PRIOR_SAVES[0]):
+            await gateway.persistence.save()  # (a long-running process: this is not its first save)
     if how == "stop":
         await gateway.persistence.start()
         await _first_save_done(gateway.persistence.path)
@@ -269,6 +280,8 @@ def _child(scratch: str, path: str, new: dict, crash_at: int, partial: int | Non
         _install(ctl)
         if PATH_FORM[0] != "absolute":
             os.chdir(scratch)
+        if DEBUG_LOG[0]:
+            env.debug_logging(True).__enter__()
         gateway = Gateway(env.RecordingTransport(), Config(persistence_file=_cfg_path(path)))
         import asyncio
 
@@ -465,6 +478,8 @@ def run_case(case: dict) -> Outcome:
     known_failure: Outcome | None = None
     cwd_before = os.getcwd()
     PATH_FORM[0] = case.get("path_form") or "absolute"
+    PRIOR_SAVES[0] = int(case.get("prior_saves") or 0)
+    DEBUG_LOG[0] = bool(case.get("debug_log"))
     try:
         if PATH_FORM[0] != "absolute":
             os.chdir(scratch)  # the application runs in its data directory and configures a relative path
@@ -560,6 +575,8 @@ def run_case(case: dict) -> Outcome:
                         return failure
     finally:
         AGE[0] = 0
+        PRIOR_SAVES[0] = 0
+        DEBUG_LOG[0] = False
         PATH_FORM[0] = "absolute"
         os.chdir(cwd_before)
         shutil.rmtree(scratch, ignore_errors=True)
